@@ -328,7 +328,8 @@ pub fn run_c04(rep: &mut Report, rng: &mut Rng, thorough: bool) {
             rep.evaluations += 1;
         }
         // a corrupt symbol that ends exactly at the end of the input: flips in the LZMA payload of an LZIP member that
-        // end in "dist overflow" (`Other`), then EVERY cut of that mutant.  Short cuts are `UnexpectedEof`; from the
+        // end in "dist overflow" (`Other`), then the cuts of that mutant around the first one that is `Other`.  Short cuts are
+        // `UnexpectedEof`; from the
         // cut that holds the last byte the failing symbol needs the answer is `Other` - although the normalisation
         // that would follow asks for a byte that is not there (`LZMADecoder::decode` returns the error of `repeat`
         // without normalising; the reader model must do the same, `Lzma.rawFinish`).
@@ -349,19 +350,14 @@ pub fn run_c04(rep: &mut Report, rng: &mut Rng, thorough: bool) {
                 }
                 found += 1;
                 rep.count("flip-then-cut.mutants");
-                let mut first_other = None;
-                for k in 6..m.len() {
-                    if first_other.is_none() && matches!(real_decode(f.fmt, false, &m[..k], f.data.len() * 2 + 4096), Outcome::Err(std::io::ErrorKind::Other, _)) {
-                        first_other = Some(k);
+                // the first cut that is `Other`: the model is asked about the 32 cuts before it (all `UnexpectedEof`
+                // unless something else is wrong) and the 24 behind it (cuts far away all behave alike)
+                let first_other = (6..m.len()).find(|&k| matches!(real_decode(f.fmt, false, &m[..k], f.data.len() * 2 + 4096), Outcome::Err(std::io::ErrorKind::Other, _)));
+                if let Some(k0) = first_other {
+                    for k in k0.saturating_sub(32).max(6)..(k0 + 25).min(m.len()) {
+                        check_mutant(rep, f, &m[..k], &format!("bitflip@{bit}+cut@{k}"), true);
+                        rep.evaluations += 1;
                     }
-                    // (cuts far behind the failing symbol all behave alike: keep 24 of them)
-                    if let Some(k0) = first_other {
-                        if k > k0 + 24 {
-                            break;
-                        }
-                    }
-                    check_mutant(rep, f, &m[..k], &format!("bitflip@{bit}+cut@{k}"), true);
-                    rep.evaluations += 1;
                 }
             }
         }
